@@ -688,7 +688,7 @@ hwloc__nolibxml_export_end_object(hwloc__xml_export_state_t state, const char *n
 }
 
 static void
-hwloc__nolibxml_export_add_content(hwloc__xml_export_state_t state, const char *buffer, size_t length __hwloc_attribute_unused)
+hwloc__nolibxml_export_add_content(hwloc__xml_export_state_t state, const char *buffer, size_t length)
 {
   hwloc__nolibxml_export_state_data_t ndata = (void *) state->data;
   int res;
@@ -701,11 +701,20 @@ hwloc__nolibxml_export_add_content(hwloc__xml_export_state_t state, const char *
   ndata->has_content = 1;
 
   {
-    /* content may contain characters that are not allowed as is in XML (e.g. plain userdata) */
-    char *escaped = hwloc__nolibxml_export_escape_string(buffer);
-    res = hwloc_snprintf(ndata->buffer, ndata->remaining, "%s", escaped ? (const char *) escaped : buffer);
-    hwloc__nolibxml_export_update_buffer(ndata, res);
-    free(escaped);
+    /* only export the given length, the caller buffer may be longer or not null-terminated.
+     * content may contain characters that are not allowed as is in XML (e.g. plain userdata)
+     */
+    char *copy = malloc(length+1);
+    if (copy) {
+      char *escaped;
+      memcpy(copy, buffer, length);
+      copy[length] = '\0';
+      escaped = hwloc__nolibxml_export_escape_string(copy);
+      res = hwloc_snprintf(ndata->buffer, ndata->remaining, "%s", escaped ? (const char *) escaped : copy);
+      hwloc__nolibxml_export_update_buffer(ndata, res);
+      free(escaped);
+      free(copy);
+    }
   }
 }
 
